@@ -26,6 +26,7 @@ type Ctx struct {
 	findIdx    map[*ssa.Function]*findIndex
 	nonEmpty   map[*ssa.Parameter]int
 	addrTaken  map[*ssa.Function]bool
+	sliceIdx   map[*ssa.Function][3]int64
 	shrinkers  map[*types.Var]map[*types.Func]bool
 	boundsSeen map[string]bool
 
